@@ -164,17 +164,18 @@ def work(chunk):
                 rec["errors"] = {k: str(v)[:80] for k, v in errs.items()}
                 if not fired and not errs:
                     t = subprocess.run(
-                        ["/venv/bin/python", "-m", "pytest", "-q", "-x",
+                        ["/venv/bin/python", "-m", "pytest", "-q",
                          "-p", "no:cacheprovider", "--timeout=120",
-                         "--continue-on-collection-errors",
-                         "--deselect",
-                         "test/test_file_interface.py::TestBagFile::test_write_read_integrity"],
+                         "--continue-on-collection-errors"],
                         cwd=d, env=env, capture_output=True, text=True,
                         timeout=600)
                     tail = t.stdout.strip().splitlines()[-1] if \
                         t.stdout.strip() else ""
-                    rec["tests"] = "killed" if " failed" in tail else \
-                        "survived"
+                    import re
+                    mm = re.search(r"(\d+) passed", tail)
+                    # pinned baseline: 82 passed (1 failed, 3 errors always)
+                    rec["tests"] = "survived" if mm and \
+                        int(mm.group(1)) >= 82 else "killed"
                     rec["tests_tail"] = tail[:80]
                 out.append(rec)
             except subprocess.TimeoutExpired:
